@@ -43,7 +43,7 @@ def val(v):
 
 def judge_call(exp, r, redefined):
     """'' or the reason the observed outcomes of one call are not what the lambda list prescribes."""
-    paths = ["direct", "funcall", "apply"] + (["old", "site"] if redefined else [])
+    paths = ["direct", "funcall", "apply", "fwd"] + (["old", "site"] if redefined else [])
     for path in paths:
         c = r[path]
         if c.get("fault"):
